@@ -417,6 +417,21 @@ pub fn run_case(model: &mut Model, fixed: bool, c: &Case, mut rep: Option<&mut R
                 });
             }
         }
+        // a bare length word is no block: after `i` complete records (each request consumes exactly one block)
+        // nothing of a further block is on the tape — the request must not complete and the CPU stays as it was
+        if s.is_none() && obs.outcome.starts_with("ret") && truncated_tail_after(&c.tape, i) {
+            return Some(Dis {
+                kind: Kind::SpecViolated,
+                key: format!("C10/truncated-tail/{}", if obs.outcome == "ret1" { "success-reported" } else { "request-completed" }),
+                what: format!(
+                    "request {} (A={:02x} {} IX={:04x} DE={:04x}) meets a length word with nothing behind it (no block is left): the routine returned ({}), IX={:04x} DE={:04x}",
+                    i, r.a, if r.load { "LOAD" } else { "VERIFY" }, r.ix, r.de, obs.outcome, obs.ix, obs.de
+                ),
+                implementation: format!("{} ix={:04x} de={:04x} mem={}", obs.outcome, obs.ix, obs.de, short(&obs.win)),
+                expected: "the request does not complete and the CPU state is not disturbed (as with a silent tape)".into(),
+                at: i,
+            });
+        }
         if let Some((field, got, want)) = diff_field(&obs, &m) {
             return Some(Dis {
                 kind: Kind::ModelMismatch,
@@ -432,6 +447,32 @@ pub fn run_case(model: &mut Model, fixed: bool, c: &Case, mut rep: Option<&mut R
         }
     }
     None
+}
+
+/// After `k` complete records, does the image end in a (partial) length word with no byte of a block behind it?
+pub fn truncated_tail_after(tape: &[u8], k: usize) -> bool {
+    let mut pos = 0usize;
+    for _ in 0..k {
+        if pos + 2 > tape.len() {
+            return false;
+        }
+        let n = tape[pos] as usize + 256 * tape[pos + 1] as usize;
+        if pos + 2 + n > tape.len() {
+            return false;
+        }
+        pos += 2 + n;
+    }
+    if pos == tape.len() {
+        return false; // clean end of tape
+    }
+    if pos + 2 > tape.len() {
+        return true; // half a length word
+    }
+    // a length word announcing a block of which not a single byte is on the tape
+    // (a record cut *inside* its body is left to the model comparison: the ROM itself would take the bytes
+    // that are there, and a request that needs no more than those completes legitimately)
+    let n = tape[pos] as usize + 256 * tape[pos + 1] as usize;
+    n > 0 && pos + 2 == tape.len()
 }
 
 // ---------------------------------------------------------------- generation
